@@ -224,5 +224,12 @@ func c02(c *ctx) {
 		o.stat("malformed_scripts", 1)
 	}
 	c02wireAll(c)
+	ncc := 4
+	if c.thorough() {
+		ncc = 30
+	}
+	for k := 0; k < ncc; k++ {
+		c02concurrent(c, k)
+	}
 	o.sample("exhaustive: order=[2 0 1] closing=1 reads interleaved; sb.write seq=2 ... -> ok; sb.write seq=0 -> ok; sb.write seq=1 closing=1 -> close")
 }
